@@ -29,6 +29,18 @@ class Domain:
     def bind(self, target: ast.AST | None, s, source: ast.AST | None = None): return s
 
 
+def may_raise(st: ast.stmt) -> bool:
+    """default exception model: every statement may raise, except binding plain names to a constant or
+    to another plain name (`flag = True`, `a = b`) and `pass`"""
+    if isinstance(st, ast.Pass):
+        return False
+    if isinstance(st, (ast.Assign, ast.AnnAssign)) and getattr(st, 'value', None) is not None:
+        tgts = st.targets if isinstance(st, ast.Assign) else [st.target]
+        if all(isinstance(t, ast.Name) for t in tgts) and isinstance(st.value, (ast.Constant, ast.Name)):
+            return False
+    return True
+
+
 class Flow:
     def __init__(self, dom: Domain,
                  on_stmt: Callable[[ast.stmt, Any], None] | None = None,
@@ -38,7 +50,7 @@ class Flow:
         self.on_stmt = on_stmt
         self.on_exit = on_exit
         # which statements may raise (for try/except modelling); default: any
-        self.raises = raises or (lambda s: True)
+        self.raises = raises or may_raise
         self._loops: list[dict[str, list]] = []
         self._tries: list[list] = []
 
